@@ -229,6 +229,10 @@ package dns
 //@   assume at "*rr.Header() = h" rr != nil
 //@   ensures in:   err == nil ==> 0 <= off && off <= off1 && off1 <= len(msg) && off1 == off + h.Rdlength
 //@   ensures some: err == nil ==> rr != nil
+// a record without RDATA (dynamic update, RFC 2136 2.4/2.5) must pack to RDLENGTH 0 again: it is handed out as a
+// bare header (ANY carrying the record's type), not as a typed record whose zero-valued fixed-width fields
+// (MX preference, SRV priority/weight/port, SOA timers, DS tag/algorithm ...) the generated pack would write
+//@   exit nordata: err == nil && called("noRdata") && callres("noRdata") ==> isptrtype(rr, ANY) || isptrtype(rr, OPT) [C01]
 
 //@ func UnpackRR [C01 C02]
 //@   requires 0 <= off
